@@ -60,6 +60,7 @@ package pubsub
 //@   flag wired 2
 //@   requires #args: len(cmd.Args) >= 1
 //@   requires #wf: s.pubsub.wf() && 0 <= deliveries && deliveries <= 4611686018427387904 && 0 <= remote_published && remote_published <= 4611686018427387904
+//@   atcall server\.Client\)\.Get$ requires #never_forwarded_to_itself [C14]: member.ID != s.rt.this.ID
 //@   ensures #reply_is_the_sum [C14] internal: total == (deliveries - old(deliveries)) + (remote_published - old(remote_published)) &&
 //@                (conn.replied_int == total || conn.replied_int == old(conn.replied_int))
 //@   loop 0 invariant #sum: total == (deliveries - old(deliveries)) + (remote_published - old(remote_published)) && s.pubsub.wf() &&
